@@ -143,8 +143,8 @@ def run(ctx):
     exe = ctx.harness("rw_replay", ["harness/rwlock/rw_replay.c"])
     scen = SCENARIOS + ([] if ctx.quick else SCENARIOS_THOROUGH)
     byname = {sc["name"]: sc for sc in scen}
-    nwalks = 400 if ctx.quick else 20000
-    ntrans = 500 if ctx.quick else 50000
+    nwalks = 400 if ctx.quick else 3000
+    ntrans = 500 if ctx.quick else 5000
 
     def account(mod, cfg, r, **kw):
         ctx.states += r.distinct
@@ -229,11 +229,11 @@ def run(ctx):
         info = {"name": sc["name"], "threads": sc["threads"], "model_states": len(g.nodes), "model_paths_total": total,
                 "walks_replayed": len(scheds) - ntests, "transition_tests": ntests, "paths_exhaustive": exhaustive}
         if sc["name"] in EXPLORE:
-            metas = collect(ctx, exe, "explore", sc, str(30000 if ctx.quick else 1000000), "explore", executions, timeout=1500)
+            metas = collect(ctx, exe, "explore", sc, str(30000 if ctx.quick else 100000), "explore", executions, timeout=1500)
             last = metas[-1] if metas else {}
             info.update({"code_interleavings": last.get("explored"), "code_exhaustive": last.get("exhaustive")})
         ctx.extra.setdefault("scenarios", []).append(info)
-    metas = collect(ctx, exe, "stress", STRESS, str(30 if ctx.quick else 2000), "stress", executions, timeout=600)
+    metas = collect(ctx, exe, "stress", STRESS, str(30 if ctx.quick else 300), "stress", executions, timeout=600)
     ctx.extra["stress_runs"] = len(metas)
 
     ctx.evaluations = len(executions)
